@@ -64,15 +64,18 @@ impl PaletteMapper {
     /// Create a new mapper from a color palette.
     pub fn new(palette: &ColorPalette, options: MappingOptions) -> PaletteMapper {
         let mut map = IntMap::default();
-        for (idx, entry) in palette.entries.iter() {
-            let m =
-                entry.red() as u32 + ((entry.green() as u32) << 8) + ((entry.blue() as u32) << 16);
-            let col = if *idx < 256 {
-                *idx as u8
-            } else {
-                options.failure
-            };
-            let _ = map.insert(m, col);
+        let key = |entry: &crate::ColorPaletteEntry| {
+            entry.red() as u32 + ((entry.green() as u32) << 8) + ((entry.blue() as u32) << 16)
+        };
+        // Entries at indices that do not fit into a byte cannot be mapped to.
+        // They are applied last so that a color which occurs both below and
+        // above 255 gives the same answer (failure) whatever order the
+        // palette's entries are visited in.
+        for (idx, entry) in palette.entries.iter().filter(|(idx, _)| **idx < 256) {
+            let _ = map.insert(key(entry), *idx as u8);
+        }
+        for (_, entry) in palette.entries.iter().filter(|(idx, _)| **idx >= 256) {
+            let _ = map.insert(key(entry), options.failure);
         }
         PaletteMapper {
             map,
